@@ -5,14 +5,18 @@ query, two compilations on one environment, two environments} over {the same
 document, two documents}; ALL interleavings of next() calls up to and including the
 call that raises StopIteration (stateless: every schedule is re-executed on fresh
 iterators, generators cannot be copied), and for k = 2 every schedule additionally
-with one iterator closed / dropped at every point.  Oracle: the j-th item of iterator
+with one iterator closed / dropped at every point; plus "abandon" histories: an
+iterator of a compiled query is advanced j steps and then closed / dropped (or
+find_one() is called) 1..5 (..130 thorough) times on an environment whose recursion
+limit equals the document's nesting, after which a complete run must be intact.  Oracle: the j-th item of iterator
 i is the j-th item of its solitary run; exhaustion happens exactly at the end.
 Thread part: 2 real threads (bodies: list(q.finditer(d)), env.find(text, d),
 env.compile(text) + find) on shared query / environment objects under a cooperative
 scheduler (mc/sched/threads.py: sys.settrace line events in package code are the
 scheduling points, one baton).  Iterative preemption bounding: all schedules with 0
 and 1 preemptions (quick), 2 (thorough, capped).  Oracle: each thread observes its
-sequential result.
+sequential result, and the same bodies run sequentially afterwards still do (the shared
+environment / query objects are left intact).
 """
 import itertools
 import os
@@ -26,7 +30,7 @@ SERIAL_THREADS = True
 RULE = (
     "iterator part: 10 queries x 6 harness configurations (sharing of query / environment / document) "
     "x all interleavings of next() over 2-3 iterators (multinomial; every schedule replayed on fresh "
-    "iterators) + all single close/drop points for k=2; thread part: 9 two-thread harnesses x all "
+    "iterators) + all single close/drop points for k=2; thread part: 12 two-thread harnesses x all "
     "schedules with <=1 (quick) / <=2 (thorough) preemptions at line granularity; distinct by "
     "construction; non-trivial = schedules in which at least two iterators/threads are live at once"
 )
@@ -46,7 +50,11 @@ QUERIES = [
     ("$[1:][::-1]", [[1], [2, 3], [4, 5]]),
     ("$[*][*]", [[1, 2], {"k": 3}]),
     ("$..[0,1]", [[1, [2]], 3]),
+    ("$[?match(@.b, '.y')]", [{"b": "xy"}, {"b": "y"}, {"b": "zy"}]),
+    ("$[?search(@.b, 'y|z')]", [{"b": "xy"}, {"b": "x"}, {"b": "xz"}]),
+    ("$[?value(@..a) == 1]", [{"a": 1}, {"b": {"a": 1}}, {"a": 2}]),
 ]
+N_ITER_QUERIES = 10
 ALT_DOC = {"a": 7, "b": [{"a": 1, "b": "x"}, [5, 6]], "x": 2, "l": [{"a": 2}]}
 CONFIGS = ["same-query-same-doc", "same-query-two-docs", "two-compilations-same-doc", "two-envs-same-doc",
            "two-envs-two-docs", "three-same-query"]
@@ -63,7 +71,7 @@ def make_iters(config, qi):
     """-> list of (factory of fresh iterator, solitary result)"""
     JPE = impl.jp.JSONPathEnvironment
     text, doc = QUERIES[qi]
-    other_text, other_doc = QUERIES[(qi + 1) % len(QUERIES)]
+    other_text, other_doc = QUERIES[(qi + 1) % N_ITER_QUERIES]
     e1, e2 = JPE(), JPE()
     q1 = e1.compile(text)
     if config == "same-query-same-doc":
@@ -148,6 +156,9 @@ T_HARNESS = [
     ("root filter query shared", 6, 6, "iter", "iter"),
     ("match shared env", 4, 4, "find", "find"),
     ("compile invalid / compile valid shared env", 0, 0, "compile_bad", "compile"),
+    ("match with two different patterns shared env", 4, 10, "find", "find"),
+    ("search / match different patterns shared env", 11, 4, "find", "iter"),
+    ("length+count / value shared env", 5, 12, "find", "find"),
 ]
 
 
@@ -187,14 +198,73 @@ def pkg_dir():
     return os.path.dirname(os.path.abspath(impl.jp.__file__))
 
 
+ABANDON = [
+    ("$..a", {"a": 1, "b": {"a": [2, {"a": 3}]}}),
+    ("$..[?@.a]", [{"a": 1}, [{"a": 2}, {"b": [{"a": 3}]}]]),
+    ("$..*", [[1, [2]], {"k": [3]}]),
+    ("$[?@..a]..a", [{"a": {"a": 1}}, {"b": {"a": [2]}}]),
+    ("$.*[?count(@..*) > 0]", {"x": [[1], [[2]]], "y": {"k": [3]}}),
+    ("$[*][*]", [[1, 2], {"k": 3}]),
+]
+
+
+def nesting(x):
+    if isinstance(x, dict):
+        return 1 + max([nesting(v) for v in x.values()], default=0)
+    if isinstance(x, list):
+        return 1 + max([nesting(v) for v in x], default=0)
+    return 0
+
+
+def abandon_case(qi, j, mode, repeat):
+    """Take j items from a fresh iterator of a compiled query, abandon it (close / drop /
+    find_one), `repeat` times; then a complete run must still equal the solitary run.  The
+    environment's recursion limit equals the document's nesting, so any depth bookkeeping that
+    leaks from an abandoned iteration shows at once."""
+    text, doc = ABANDON[qi]
+
+    class Tight(impl.jp.JSONPathEnvironment):
+        max_recursion_depth = max(1, nesting(doc))
+
+    env = Tight()
+    q = env.compile(text)
+    want = [(n.location, id(n.value)) for n in env.compile(text).finditer(doc)]
+    for _ in range(repeat):
+        if mode == "find_one":
+            q.find_one(doc)
+            continue
+        it = iter(q.finditer(doc))
+        for _k in range(j):
+            try:
+                next(it)
+            except StopIteration:
+                break
+        if mode == "close" and hasattr(it, "close"):
+            it.close()
+        del it
+    try:
+        got = [(n.location, id(n.value)) for n in q.finditer(doc)]
+    except Exception as e:  # noqa: BLE001
+        return {"after_abandoning": repeat, "expected_items": len(want), "observed": "raised " + type(e).__name__}
+    if got != want:
+        return {"after_abandoning": repeat, "expected_items": len(want), "observed_items": len(got)}
+    return None
+
+
 def shards(tier):
-    out = [{"part": "iters", "q": qi, "config": c, "cap": {"2": 5, "3": 3} if tier == "quick" else {"2": 7, "3": 4}}
-           for qi in range(len(QUERIES)) for c in CONFIGS]
+    out = [{"part": "abandon", "q": qi, "tier": tier} for qi in range(len(ABANDON))]
+    out += [{"part": "iters", "q": qi, "config": c, "cap": {"2": 5, "3": 3} if tier == "quick" else {"2": 7, "3": 4}}
+           for qi in range(N_ITER_QUERIES) for c in CONFIGS]
     out += [{"part": "threads", "h": h, "tier": tier} for h in range(len(T_HARNESS))]
     return out
 
 
 def check_case(case):
+    if case["part"] == "abandon":
+        bad = abandon_case(case["q"], case["j"], case["mode"], case["repeat"])
+        if bad:
+            return violation("iterator-interference", case, "complete run equals the solitary run", bad, "interference")
+        return None
     if case["part"] == "iters":
         facs, sol = make_iters(case["config"], case["q"])
         ca = case.get("close_at")
@@ -213,11 +283,38 @@ def check_case(case):
         return violation("thread-interference", case, "sequential observations",
                          {"thread_results_differ": [i for i in range(2) if obs[i] != seq[i]],
                           "errors": exe.errors}, "interference")
+    try:
+        post = [b() for b in make()]
+    except Exception as e:  # noqa: BLE001
+        post = "raised " + type(e).__name__
+    if post != seq:
+        return violation("thread-interference", case, "sequential observations",
+                         {"after_the_concurrent_run_sequential_results_differ": True}, "interference")
     return None
 
 
 def run_shard(desc):
     sh = Shard(PROPERTY)
+    if desc["part"] == "abandon":
+        qi = desc["q"]
+        text, doc = ABANDON[qi]
+        n = len(impl.jp.find(text, doc))
+        for mode in ("drop", "close", "find_one"):
+            for j in (range(0, n + 2) if mode != "find_one" else [1]):
+                for repeat in ((1, 2, 3, 5) if desc["tier"] == "quick" else (1, 2, 3, 5, 8, 13, 40, 130)):
+                    sh.states += repeat + 1
+                    sh.transitions += repeat * (j + 1) + n
+                    sh.traces += 1
+                    sh.evaluations += 1
+                    sh.nontrivial += 1
+                    bad = abandon_case(qi, j, mode, repeat)
+                    if bad:
+                        sh.violation(violation("iterator-interference",
+                                               {"part": "abandon", "q": qi, "query": text, "j": j, "mode": mode,
+                                                "repeat": repeat},
+                                               "complete run equals the solitary run", bad, "interference"))
+        sh.sample({"abandon": text, "doc": impl.jsonable(doc)}, limit=1)
+        return sh
     if desc["part"] == "iters":
         facs, sol = make_iters(desc["config"], desc["q"])
         k = len(facs)
@@ -264,6 +361,14 @@ def run_shard(desc):
             obs = [exe.errors[i] or exe.results[i] for i in range(2)]
             if obs != seq:
                 return {"thread_results_differ": [i for i in range(2) if obs[i] != seq[i]], "errors": exe.errors}
+            # the shared objects must also be left intact: the same bodies, run sequentially
+            # after the concurrent execution, still give the sequential observations
+            try:
+                post = [b() for b in make()]
+            except Exception as e:  # noqa: BLE001
+                post = "raised " + type(e).__name__
+            if post != seq:
+                return {"after_the_concurrent_run_sequential_results_differ": True}
             return None
 
         found, stats = ts.explore(make, pkg_dir(), 1 if tier == "quick" else 2, check,
@@ -275,7 +380,7 @@ def run_shard(desc):
         sh.nontrivial += max(0, stats["executions"] - 2)
         sh.bump("thread_executions", stats["executions"])
         sh.extra["preemption_bound_completed_h%d" % h] = stats["bound_completed"]
-        if tier != "quick" and stats["executions"] >= 6000:
+        if stats.get("capped"):
             sh.bump("thread_harness_capped_not_exhaustive_at_bound_2")
         for schedule, bad in found:
             sh.violation(violation("thread-interference",
